@@ -21,6 +21,8 @@
 (*               distributions[i]; sampling reads the state of the model at call time       *)
 (*   "frozenplan" as "replace", but sampling iterates over the distribution objects that    *)
 (*               were in the list at construction (variable plan), not the current ones     *)
+(*   "rawnegdim" marginal_pdf / marginal_cdf put a NEGATIVE dim as passed into the argument  *)
+(*               order (integral_order + [dim]) instead of the index it denotes              *)
 (*   "clipgiven" sampling clips the given to the range 0..1 before it is used (the range  *)
 (*               of values a fit has seen) instead of using the value in the row          *)
 EXTENDS RosenblattOps, Json, TLC
@@ -130,21 +132,25 @@ NonNeg == mode = "pdf" => acc >= 0
 (* the integral clauses do not depend on the evaluation point: evaluate them once per     *)
 (* configuration, at the first state of the lattice origin                               *)
 Static == mode = "pdf" /\ pc = 1 /\ \A i \in 1..n : x[1][i] = 0
-Reorder(order) == IF Mut = "noinverse" THEN order ELSE InversePerm(order)
+Reorder(order) == IF Mut = "noinverse" THEN order ELSE ArgSort(order)      \* np.argsort(arg_order)
+(* the argument order for the variable addressed as d (d in 1..n, or -1..-n counted from the end) *)
+ArgOrderAs(m, d) == IF Mut = "rawnegdim" THEN Reverse(Others(m, NormDim(m, d))) \o <<d>>
+                    ELSE ArgOrderMarginal(m, NormDim(m, d))
 
+(* the reordering puts the argument that carries model variable k into slot k *)
 ReorderIsInverse ==
     Static => /\ IsInverse(ArgOrderCdf(n), Reorder(ArgOrderCdf(n)))
-              /\ \A dim \in 1..n : IsInverse(ArgOrderMarginal(n, dim), Reorder(ArgOrderMarginal(n, dim)))
+              /\ \A d \in DimArgs(n) :
+                    LET o == ArgOrderAs(n, d) r == Reorder(o) IN \A k \in 1..n : NormDim(n, o[r[k]]) = k
 NormalisedToOne == Static => TotalMass(cond, sh, n) = Pow(DensSum, n)
 CdfIsOrthantSum ==
     mode = "pdf" /\ pc = 1 =>
        CodeCdf(cond, sh, n, x[1], Reorder(ArgOrderCdf(n))) = OrthantSum(cond, sh, n, x[1])
 MarginalIsSumOverOthers ==
-    Static => \A dim \in 1..n : \A v \in V :
-       /\ CodeMarginalPdf(cond, sh, n, dim, v, Reorder(ArgOrderMarginal(n, dim)))
-            = MarginalPdfSum(cond, sh, n, dim, v)
-       /\ CodeMarginalCdf(cond, sh, n, dim, v, Reorder(ArgOrderMarginal(n, dim)))
-            = MarginalCdfSum(cond, sh, n, dim, v)
+    Static => \A d \in DimArgs(n) : \A v \in V :
+       LET dim == NormDim(n, d) r == Reorder(ArgOrderAs(n, d)) IN
+       /\ CodeMarginalPdf(cond, sh, n, dim, v, r) = MarginalPdfSum(cond, sh, n, dim, v)
+       /\ CodeMarginalCdf(cond, sh, n, dim, v, r) = MarginalCdfSum(cond, sh, n, dim, v)
 
 (* leg R: every configuration, printed once (at its first state with all levels 0) *)
 Emit ==
